@@ -316,19 +316,11 @@ class DependencyGraph:
             and "operator" in action_dependency
         ):
             self.edge_captions[edge_tuple].append(
-                (
-                    action_dependency["left"]["field"]
-                    if "field" in action_dependency["left"]
-                    else action_dependency["left"]["value"]
-                )
+                self._operand_caption(action_dependency["left"])
                 + " "
                 + _comparison_operator_map[action_dependency["operator"]]
                 + " "
-                + (
-                    str(action_dependency["right"]["value"])
-                    if "value" in action_dependency["right"]
-                    else action_dependency["right"]["field"]
-                )
+                + self._operand_caption(action_dependency["right"])
             )
         elif checkpoint_dependency and "description" in checkpoint_dependency:
             self.edge_captions[edge_tuple].append(
@@ -336,6 +328,17 @@ class DependencyGraph:
                 if "abbreviated_description" in checkpoint_dependency
                 else checkpoint_dependency["description"]
             )
+
+    def _operand_caption(self, operand):
+        # legacy operand format: the compared field is named separately
+        if "field" in operand:
+            return operand["field"]
+
+        # an operand is either a reference (to an action or a variable) or a literal
+        if "ref" in operand:
+            return operand["ref"]
+
+        return str(operand["value"])
 
     def _set_node_coordinates(self):
         nodes = list(self.actions.keys()) + list(self.gates.keys())
